@@ -186,7 +186,7 @@ func partOrder(spec *ukit.Spec, tier string, res *ux.Result, only *replay) {
 			outcomes := map[string]string{}
 			var first string
 			execs := 0
-			e := &mcrt.Explorer{MaxPreempt: 0, MaxDelay: -1, MaxDeviate: dev, MaxSteps: 1 << 20, Body: func() {
+			e := &mcrt.Explorer{Embedded: true, MaxPreempt: 0, MaxDelay: -1, MaxDeviate: dev, MaxSteps: 1 << 20, Body: func() {
 				v, err := apply(sch, op, a.v)
 				first = outcome(v, err)
 			}, Check: func(r *mcrt.Result) bool {
